@@ -134,5 +134,10 @@ func StreamJsonAsReaderAndReturn[T any, V any](
 	}()
 
 	// Now allow the consumer to read from the pipe
-	return consumer(ctx, pr)
+	ret, err := consumer(ctx, pr)
+
+	// The consumer is done with the reader, close it so that the writer goroutine fails its pending write and exits
+	// instead of blocking forever in case the consumer returned without reading the pipe to its end
+	_ = pr.Close()
+	return ret, err
 }
